@@ -169,6 +169,50 @@ def r3_line_grammar(ctx: Ctx) -> None:
     txt = unparse(pl.node)
     ctx.check("matches.group('byte')" in txt and "matches.group('text')" in txt and "self.add_lookup(text, byte)" in txt, "Table.parse_table_line", "text -> code entry is recorded from the named groups")
     ctx.check("self.add_inverted_lookup(byte, text" in txt, "Table.parse_table_line:inverse", "code -> text entry is recorded too")
+    # every matched line yields a text -> code entry: the add_lookup call depends on the line having matched, on nothing else
+    from ..cfg import CFG as _CFG18
+
+    g18 = _CFG18(pl.node)
+    adds = [c for c in calls_in(pl.node) if call_name(c) == "self.add_lookup"]
+    if len(adds) == 1:
+        conds = g18.path_conditions(g18.node_containing(adds[0]), pl.node)
+        extra = [(t, p_) for t, p_ in conds if "ignore" in t]
+        ctx.check(not extra, "Table.parse_table_line:every-entry", f"entries with a `:N` field are encodable too: add_lookup must not depend on the ignore group; it runs under {sorted(conds)}")
+    # the raw-byte escape [0xNN] takes hexadecimal digits in either letter case, like the table's own code column
+    jk = None
+    for s_ in tbl.node.body:
+        if isinstance(s_, ast.Assign) and unparse(s_.targets[0]) == "joker_regex" and isinstance(s_.value, ast.Call):
+            jk = const_str(s_.value.args[0])
+    if jk is None:
+        raise AnalysisError("Table.joker_regex literal not found")
+
+    def hex_classes(pattern: str) -> list[set[str]]:
+        out = []
+        def walk(seq) -> None:
+            for op, av in seq:
+                if str(op) == "IN":
+                    chars: set[str] = set()
+                    for o2, a2 in av:
+                        if str(o2) == "RANGE":
+                            chars |= {chr(c_) for c_ in range(a2[0], a2[1] + 1)}
+                        elif str(o2) == "LITERAL":
+                            chars.add(chr(a2))
+                    if chars & set("0123456789abcdefABCDEF") and not (chars - set("0123456789abcdefABCDEF")):
+                        out.append(chars)
+                elif str(op) in ("MAX_REPEAT", "MIN_REPEAT"):
+                    walk(av[2])
+                elif str(op) == "SUBPATTERN":
+                    walk(av[-1])
+                elif str(op) == "BRANCH":
+                    for alt in av[1]:
+                        walk(alt)
+        walk(rp.parse(pattern))
+        return out
+
+    full = set("0123456789abcdefABCDEF")
+    for nm, pt in (("joker_regex", jk), ("table_line_regex", pat)):
+        hc = hex_classes(pt)
+        ctx.check(bool(hc) and all(c_ == full for c_ in hc), f"{nm}:hex-digits", f"hexadecimal digits in both letter cases; classes found {[''.join(sorted(c_)) for c_ in hc]}")
     tb = ctx.repo.func(SCRIPT, "Table.transform_byte_matches_to_int")
     t2 = unparse(tb.node)
     ctx.check("zip(*[iter(value)] * 2, strict=True)" in t2 and "int(''.join(b), 16)" in t2, "Table.transform_byte_matches_to_int", "hex digits are taken two at a time, each pair one byte in base 16")
@@ -193,6 +237,20 @@ def r5_enclosing_table_stays_reachable(ctx: Ctx) -> None:
     scope_truthiness(ctx)
 
 
+def r6_text_layout(ctx: Ctx) -> None:
+    """`the directive occupies exactly the emitted number of bytes in the address layout`: the text node classes advance the address by
+    the length of what they emit (the C02.R1 obligation for TextNode / AbstractTextNode / TableNode)"""
+    from ..terms import node_class_terms
+
+    terms = node_class_terms(ctx.repo)
+    for name in ("TextNode", "AbstractTextNode", "TableNode"):
+        if name not in terms:
+            raise AnalysisError(f"anchor missing: {name}")
+        _ci, et, at, _em, _pa = terms[name]
+        ctx.count("text_layout_classes")
+        ctx.check(et == at, f"{name}:emit-vs-pc_after", f"emit() yields {et} bytes, pc_after() advances by {at}")
+
+
 def rb_binding_agreement(ctx: Ctx) -> None:
     from ..ownership import binding_agreement
 
@@ -213,4 +271,4 @@ def ru_names_bound(ctx: Ctx) -> None:
     names_rule(ctx)
 
 
-RULES = [r1_longest_match, r2_scoping, r3_line_grammar, r4_string_operand, r5_enclosing_table_stays_reachable, rb_binding_agreement, rm_no_process_lifetime_results, ru_names_bound]
+RULES = [r1_longest_match, r2_scoping, r3_line_grammar, r4_string_operand, r5_enclosing_table_stays_reachable, r6_text_layout, rb_binding_agreement, rm_no_process_lifetime_results, ru_names_bound]
